@@ -31,6 +31,7 @@ import (
 	"github.com/google/osv-scalibr/packageindex"
 	"github.com/google/osv-scalibr/plugin"
 	"github.com/google/osv-scalibr/purl"
+	"github.com/google/osv-scalibr/stats"
 
 	"verif/harness/hx"
 	"verif/harness/imgx"
@@ -139,6 +140,11 @@ func hitByAncestorOp(l layer, f int) bool {
 // trace's cache is keyed by (location, layer) only, so the second extractor's packages are looked up among the first one's
 // (fix-imgb-j/1.diff).
 const emitTwoExtractors = false
+
+// emitRetarget: generate op t (a layer rewrites the TARGET of a symlinked location without touching the link). The unchanged
+// code skips such a layer (known finding C05/location-content-depends-on-other-paths): switch on together with the
+// finding's line in known_findings.txt.
+const emitRetarget = false
 
 const emitNoPURL = true
 
@@ -282,6 +288,7 @@ func run(c tcase) string {
 	return hx.Guard(func() string {
 		img := empty.Image
 		var diffIDs []string
+		linkTarget := map[int]string{} // file -> the target of the symlink currently at its location ("" = no symlink there)
 		for i, l := range c.layers {
 			h := v1.History{CreatedBy: fmt.Sprintf("cmd%d", i), EmptyLayer: l.empty}
 			var err error
@@ -293,12 +300,23 @@ func run(c tcase) string {
 				for f, op := range l.ops {
 					switch {
 					case op == "k":
+					case op[0] == 't':
+						// the location is a symlink: rewrite the link's TARGET, leave the link alone
+						if linkTarget[f] == "" {
+							panic("t without a symlinked location: " + op)
+						}
+						var sb strings.Builder
+						for _, d := range op[1:] {
+							sb.WriteString(pkgLine(d) + "\n")
+						}
+						es = append(es, imgx.TarEnt{Name: linkTarget[f], Typ: tar.TypeReg, Body: sb.String()})
 					case (op[0] == 'a' || op[0] == 'r') && len(op) == 2:
 						// an ANCESTOR directory of the file, n levels up, is deleted (a) or replaced by a regular file (r)
 						dir := ancestor(f, int(op[1]-'0'))
 						if dir == "" {
 							panic("no such ancestor: " + op)
 						}
+						linkTarget[f] = ""
 						if seen[op[:1]+dir] {
 							continue
 						}
@@ -309,6 +327,7 @@ func run(c tcase) string {
 							es = append(es, imgx.TarEnt{Name: dir, Typ: tar.TypeReg, Body: "not a directory"})
 						}
 					case op == "d":
+						linkTarget[f] = ""
 						es = append(es, imgx.TarEnt{Name: imgx.WhName(files[f]), Typ: tar.TypeReg})
 					case op[0] == 'w' || op[0] == 's':
 						var sb strings.Builder
@@ -316,10 +335,12 @@ func run(c tcase) string {
 							sb.WriteString(pkgLine(d) + "\n")
 						}
 						if op[0] == 'w' {
+							linkTarget[f] = ""
 							es = append(es, imgx.TarEnt{Name: files[f], Typ: tar.TypeReg, Body: sb.String()})
 						} else {
 							// the location becomes a symlink to a list that lives elsewhere (and is not a package file itself)
 							tgt := fmt.Sprintf("lnk/g%d_%d", i, f)
+							linkTarget[f] = tgt
 							es = append(es, imgx.TarEnt{Name: tgt, Typ: tar.TypeReg, Body: sb.String()},
 								imgx.TarEnt{Name: files[f], Typ: tar.TypeSymlink, Link: "/" + tgt})
 						}
@@ -379,7 +400,7 @@ func run(c tcase) string {
 					last = "d"
 				}
 			}
-			if last[0] == 'w' || last[0] == 's' {
+			if last[0] == 'w' || last[0] == 's' || last[0] == 't' {
 				finalCalls++
 				if c.two {
 					finalCalls++
@@ -541,6 +562,9 @@ func randCase(r *rand.Rand) tcase {
 			case x < 5:
 				l.ops[f] = "d"
 				last[f] = ""
+			case x == 5 && linky && emitRetarget && last[f] != "" && (last[f][0] == 's' || last[f][0] == 't') && r.Intn(2) == 0:
+				l.ops[f] = "t" + randPkgs(r, last[f])[1:]
+				last[f] = l.ops[f]
 			case x == 5 && linky:
 				l.ops[f] = "s" + randPkgs(r, last[f])[1:]
 				last[f] = l.ops[f]
@@ -599,6 +623,18 @@ func exhaustive(emit func(tcase)) {
 // writing layer fills with the same single package and pads to the given size. The real scalibr.ScanContainer runs
 // with MaxFileSize = limit and MaxInodes = maxinodes; the reply lists the byte count handed to every Extract call.
 
+// inodeCounter counts the inode visits of the package file (main walk and every re-run of the trace).
+type inodeCounter struct {
+	stats.NoopCollector
+	visits int
+}
+
+func (c *inodeCounter) AfterInodeVisited(path string) {
+	if path == files[0] {
+		c.visits++
+	}
+}
+
 func runSizes(l string) string {
 	return hx.Guard(func() string {
 		t := strings.Split(l, " ")
@@ -648,18 +684,34 @@ func runSizes(l string) string {
 		defer im.CleanUp()
 		calls := 0
 		var sizes []int
+		ic := &inodeCounter{}
 		res, err := scalibr.New().ScanContainer(context.Background(), im, &scalibr.ScanConfig{
 			FilesystemExtractors: []filesystem.Extractor{pkgex{calls: &calls, sizes: &sizes}}, Capabilities: &plugin.Capabilities{},
-			MaxFileSize: limit, MaxInodes: inodes})
+			MaxFileSize: limit, MaxInodes: inodes, Stats: ic})
 		if err != nil {
 			return "scanerr"
+		}
+		// the trace's re-runs visit exactly the package file: its visits beyond the one of the main walk
+		runs := ic.visits
+		if fi, err := im2final(im); err == nil && fi {
+			runs--
 		}
 		ss := make([]string, len(sizes))
 		for i, s := range sizes {
 			ss[i] = strconv.Itoa(s)
 		}
-		return fmt.Sprintf("sizes=%s pkgs=%d status=%s", hx.Join(ss, "."), len(res.Inventory.Packages), res.Status.String())
+		return fmt.Sprintf("sizes=%s runs=%d pkgs=%d status=%s", hx.Join(ss, "."), runs, len(res.Inventory.Packages), res.Status.String())
 	})
+}
+
+// im2final: does the package file exist in the final view (then the main walk visits it once)?
+func im2final(im *image.Image) (bool, error) {
+	cls, err := im.ChainLayers()
+	if err != nil || len(cls) == 0 {
+		return false, err
+	}
+	_, err = cls[len(cls)-1].FS().Stat(files[0])
+	return err == nil, nil
 }
 
 func randSizes(r *rand.Rand) string {
